@@ -36,6 +36,21 @@ pub fn unsub(s: u64) -> (u64, u64, usize) {
     (s >> 44, (s >> 36) & 0xff, (s & ((1 << 36) - 1)) as usize)
 }
 
+/// A unit in which this many cases have already killed a worker is given up
+/// (every death costs a process, a re-run of the unit and, for a hang, the
+/// watchdog time): the violations found so far decide the verdict, the
+/// abandonment itself is a machinery error ("not exhaustive").
+pub const MAX_DEATHS_PER_UNIT: usize = 8;
+
+pub fn abandoned(cx: &mut Cx) -> bool {
+    if cx.skipped_cases().len() >= MAX_DEATHS_PER_UNIT {
+        cx.count("units_abandoned", 1);
+        cx.note(format!("unit {} abandoned after {} worker deaths", cx.unit, cx.skipped_cases().len()));
+        return true;
+    }
+    false
+}
+
 // ------------------------------------------------------------------ log / cache
 
 thread_local! {
@@ -427,6 +442,9 @@ fn shows<T: B>(ev: &[T]) -> Vec<String> {
 // ------------------------------------------------------------------ r1
 
 pub fn run_g1<T: B>(cx: &mut Cx) {
+    if abandoned(cx) {
+        return;
+    }
     let t = cx.cfg.tier;
     set_tier(t);
     let inf = info::<T>();
@@ -494,6 +512,9 @@ pub fn describe_g1<T: B>(t: Tier, s: u64) -> Value {
 // ------------------------------------------------------------------ r3 + r4
 
 pub fn run_g3<T: B>(cx: &mut Cx) {
+    if abandoned(cx) {
+        return;
+    }
     let t = cx.cfg.tier;
     set_tier(t);
     let inf = info::<T>();
@@ -578,6 +599,9 @@ pub fn describe_g3<T: B>(t: Tier, s: u64) -> Value {
 // ------------------------------------------------------------------ r2 + r5 (+ r7)
 
 pub fn run_g2<T: B>(cx: &mut Cx) {
+    if abandoned(cx) {
+        return;
+    }
     set_tier(cx.cfg.tier);
     if !cx.case(SUB_SETUP) {
         return;
